@@ -14,6 +14,7 @@ def reproduces(reads, meta, key):
     async def go(loop):
         with clocks_patched(entity_dt=(meta["stack"] == "port")):
             rig = Rig(loop, ctx, meta["stack"], meta["eavesdrop"], lists=meta.get("lists"))
+            rig.full_gaps = meta.get("full_gaps", True)
             await rig.start()
             for r in reads:
                 if len(r) == 2:
